@@ -50,7 +50,10 @@ def specials() -> List[tuple]:
            # rdata names that cannot be compressed against anything earlier: they end in an explicit root octet, which is
            # the very last octet of the datagram when the record comes last
            ("PTR", "4.3.2.1.in-addr.arpa.", IN, 120, "host.example."), ("SRV", x, FL, 120, 0, 0, 80, "target.example."),
-           ("CNAME", h, IN, 120, "alias.example."), ("NSEC", h, FL, 120, "next.example.", (1,))]
+           ("CNAME", h, IN, 120, "alias.example."), ("NSEC", h, FL, 120, "next.example.", (1,)),
+           # the root name (no label at all): an SRV target of "." says that the service is not available (RFC 2782)
+           ("SRV", x, FL, 120, 0, 0, 0, "."), ("PTR", "b._dns-sd._udp.local.", IN, 120, "."), ("Q", ".", 255, IN),
+           ("TXT", ".", IN, 120, b"\x01a")]
     for ttl in (0, 1, 119, 4500, 2 ** 31, 2 ** 32 - 1):
         out.append(("A", h, IN, ttl, IP4))
         out.append(("PTR", "_a._tcp.local.", FL, ttl, x))
